@@ -178,7 +178,9 @@ PROBE_KEX = ['curve25519-sha256', 'curve25519-sha256@libssh.org', 'diffie-hellma
 
 def strat_peer():
     def nm(cat):
-        return st.one_of(st.sampled_from(gens.db_names(cat)), st.sampled_from(gens.db_names(cat)), st.text(alphabet='abcdefghijklmnopqrstuvwxyz0123456789-_.@+/=', min_size=1, max_size=16).filter(lambda s: s.strip() == s and not s.startswith('gss-')), gens.gss_name() if cat == 'kex' else st.sampled_from(gens.db_names(cat)))
+        # RFC 4251 names are 1..64 characters: both ends of the range are drawn on purpose
+        edge = st.sampled_from([1, 2, 63, 64]).flatmap(lambda n: st.text(alphabet='abcdefghijklmnopqrstuvwxyz0123456789-_.@+/=', min_size=n, max_size=n)).filter(lambda s: not s.startswith('gss-'))
+        return st.one_of(st.sampled_from(gens.db_names(cat)), st.sampled_from(gens.db_names(cat)), st.sampled_from(gens.db_names(cat)), st.text(alphabet='abcdefghijklmnopqrstuvwxyz0123456789-_.@+/=', min_size=1, max_size=16).filter(lambda s: s.strip() == s and not s.startswith('gss-')), gens.gss_name() if cat == 'kex' else st.sampled_from(gens.db_names(cat)), edge)
 
     def build(t):
         kex, key, enc, mac, probe_kex, keyextra, role, rsa, ca, ca_type, cert_host, gex, with_gex = t
